@@ -128,15 +128,34 @@ KIND = {NoOp: 0, ServiceScan: 1, OSScan: 2, SubnetScan: 3, ProcessScan: 4, Explo
         PrivilegeEscalation: 6}
 
 
+class ImplAction(Exception):
+    """an action handed out by the implementation's action space does not belong to the scenario"""
+
+
+def action_finding(exc, where, replay):
+    return dict(property="C11", kind="failing-input", what=f"{where}: {exc}",
+                replay=dict(replay, kind="foreign-action"))
+
+
+def _index(names, x, what, a):
+    try:
+        return names.index(x)
+    except ValueError:
+        raise ImplAction(f"the action space holds {a}, whose {what} {x!r} the scenario does not define "
+                         f"({what}s: {list(names)})")
+
+
 def act_tokens(sc, a):
     """kind ts th cost prob req svc proc os grant"""
-    svc = sc.services.index(a.service) if isinstance(a, Exploit) else 0
+    svc = _index(sc.services, a.service, "service", a) if isinstance(a, Exploit) else 0
     proc = -1
     if isinstance(a, PrivilegeEscalation) and a.process is not None:
-        proc = sc.processes.index(a.process)
+        proc = _index(sc.processes, a.process, "process", a)
     os_ = -1
     if isinstance(a, (Exploit, PrivilegeEscalation)) and a.os is not None:
-        os_ = sc.os.index(a.os)
+        os_ = _index(sc.os, a.os, "OS", a)
+    if tuple(a.target) not in sc.hosts and not isinstance(a, NoOp):
+        raise ImplAction(f"the action space holds {a}, whose target is not a host of the scenario")
     grant = a.access if isinstance(a, (Exploit, PrivilegeEscalation)) else 0
     return [KIND[type(a)], int(a.target[0]), int(a.target[1]), sv(a.cost), fr(a.prob),
             int(a.req_access), svc, proc, os_, int(grant)]
@@ -170,14 +189,29 @@ def row_ints(env, st):
     return out
 
 
+class ImplLayout(Exception):
+    """a tensor produced by the implementation cannot be read in the documented layout"""
+
+
+def layout_finding(exc, where, replay):
+    return dict(property="C09", kind="failing-input",
+                what=f"{where}: {exc}", replay=dict(replay, kind="layout-shape"))
+
+
 def tensor_ints(sc, arr, rows_with_values):
     """raw tensor → ints; the two value columns are scaled by 64.
     rows_with_values: number of leading rows that are host rows (the aux row of an observation
     has no value columns)"""
     arr = np.asarray(arr, dtype=np.float64)
+    w = int(sc.address_space_bounds[0]) + int(sc.address_space_bounds[1]) + 6 \
+        + len(sc.os) + len(sc.services) + len(sc.processes)      # the documented row width
     if arr.ndim == 1:
-        w = sc.get_state_dims()[1]
+        if arr.size % w:
+            raise ImplLayout(f"a flat tensor of {arr.size} entries is not a whole number of rows of the "
+                             f"documented width {w}")
         arr = arr.reshape(-1, w)
+    elif arr.ndim != 2 or arr.shape[1] != w:
+        raise ImplLayout(f"a tensor of shape {arr.shape} does not have rows of the documented width {w}")
     vi = int(sc.address_space_bounds[0]) + int(sc.address_space_bounds[1]) + 3
     out = []
     for i, row in enumerate(arr):
